@@ -1,5 +1,5 @@
 (* C11/Witness.v — non-vacuity examples and concrete evaluations. *)
-From Verif Require Import Common.Base Generated.StatusTable C11.Model C11.Diagram C11.Proofs C11.ProofsConc.
+From Verif Require Import Common.Base Generated.StatusTable C11.Model C11.Diagram C11.Proofs C11.ProofsConc C11.ProofsRepair.
 
 (* a non-trivial report sequence: illegal reports interleaved with legal ones *)
 Example ex_run :
@@ -54,3 +54,17 @@ Example ex_auto_ok_branches :
   snd (rep_step (fst (rep_run [] [(0, RStatus Starting); (1, RStatus Starting)])) (0, RAutoOK)) = Some (0, OK) /\
   snd (rep_step (fst (rep_run [] [(0, RStatus Starting); (0, RStatus RecoverableError)])) (0, RAutoOK)) = None.
 Proof. vm_compute. auto. Qed.
+
+(* the S3 witness under the proposed repair: six events before the late attach, and the late instance is
+   delivered Starting, OK and then everything the first instance is *)
+Example ex_repaired_s3 :
+  let os := ScAttach 0 :: map ScReport s3_witness_es ++ ScAttach 1 :: map ScReport [RecoverableError; Stopping; Stopped] in
+  proj_events 1 (sc2_events os) = [Starting; OK; RecoverableError; Stopping; Stopped] /\
+  proj_events 1 (sc_events os) = [].
+Proof. vm_compute. auto. Qed.
+
+(* watchers: hypotheses satisfiable, and the statement is about a non-empty delivery list *)
+Example ex_watchers :
+  NoDup [0; 2] /\ In 2 [0; 2] /\
+  watcher_deliveries [0; 2] [(1, Starting); (1, OK)] = [(0, (1, Starting)); (2, (1, Starting)); (0, (1, OK)); (2, (1, OK))].
+Proof. repeat split; try (vm_compute; auto; fail). repeat constructor; simpl; intuition discriminate. Qed.
